@@ -26,7 +26,8 @@ Impl == CASE ImplName = "intended"   -> Intended
           [] ImplName = "countabove" -> [Intended EXCEPT !.aboveBuf = FALSE]
           [] ImplName = "nopop"      -> [Intended EXCEPT !.popPull = FALSE]
           [] ImplName = "nokeytime"  -> [Intended EXCEPT !.keyTime = FALSE]
-          [] ImplName = "pinned"     -> [compose |-> FALSE, aboveBuf |-> FALSE, popPull |-> FALSE, keyTime |-> FALSE]
+          [] ImplName = "depmin"     -> [Intended EXCEPT !.depmax = FALSE]
+          [] ImplName = "pinned"     -> [compose |-> FALSE, aboveBuf |-> FALSE, popPull |-> FALSE, keyTime |-> FALSE, depmax |-> TRUE]
 
 (* domain of C05: no push-time-dependent adapter *)
 NoToPush(c) == \A l \in Links(c) : \A j \in 1..Len(Chain(c, l)) : Chain(c, l)[j].k # "topush"
